@@ -48,7 +48,7 @@ def plan(tier, seed):
 
 
 def mandatory(tier):
-    return [f"mode/{m}" for m in FD_MODES + ["bspline"]] + [f"spacing/{s}" for s in SPACING_FORMS] + ["D/2", "D/3", "subset", "quadratic", "bracket", "curl", "curl/divergence_free_flow", "curl/divergence_free_flow/scalar_fields", "curl/module", "curl/data_classes"]
+    return [f"mode/{m}" for m in FD_MODES + ["bspline"]] + [f"spacing/{s}" for s in SPACING_FORMS] + ["D/2", "D/3", "subset", "quadratic", "bracket", "curl", "curl/divergence_free_flow", "curl/divergence_free_flow/scalar_fields", "curl/module", "curl/data_classes", "curl/data_classes/per_item_grids"]
 
 
 def interior(a, m=2):
@@ -120,7 +120,11 @@ def run_item(ctx, item):
             Jid = U.jacobian_matrix(u, mode=mode, spacing=arg, add_identity=True).numpy()
             ctx.close("jacobian_add_identity", Jid - Jn, np.broadcast_to(np.eye(D), Jn.shape), 1e-5 * scale, key="jacobian/identity", **info)
             for add_id in (True, False):
+                # (also for a flow that takes part in an autograd graph: same values)
+                ug = u.clone().requires_grad_(True)
+                detg = interior(U.jacobian_det(ug * 1.0, mode=mode, spacing=arg, add_identity=add_id).detach().numpy(), m)
                 det = interior(U.jacobian_det(u, mode=mode, spacing=arg, add_identity=add_id).numpy(), m)
+                ctx.close("jacobian_det_same_under_autograd", detg, det, 1e-6 * (1 + float(np.abs(det).max())), key=f"jacobian_det/{mode}/autograd", add_identity=add_id, **info)
                 ref = np.linalg.det(A + (np.eye(D) if add_id else 0)).reshape((N, 1) + (1,) * D)
                 ctx.close("jacobian_det_of_affine_field", det, np.broadcast_to(ref, det.shape), tol * scale ** (D - 1) * D, key=f"jacobian_det/{mode}", add_identity=add_id, **info)
             div = interior(U.divergence(u, mode=mode, spacing=arg).numpy(), m)
@@ -250,6 +254,24 @@ def run_item(ctx, item):
                 if ok:
                     got = interior(res.tensor().numpy(), m)
                     ctx.close("flowfields_curl_of_affine_field", got, np.broadcast_to(ref, got.shape), tol * 2 * float(np.abs(B).max() / scale + 1), key=f"curl/data_classes/{a}", mode=mode, align_corners=gac, shape=list(shape))
+            if N > 1:
+                # one grid per field (same size, other voxel size): default spacing is taken per item
+                grids_n = [Grid(shape=shape, spacing=tuple(float(q) for q in gen.f32(h[0] * (1.0 + 0.5 * n_))), align_corners=gac) for n_ in range(N)]
+                items = []
+                refs_n = []
+                for n_, gn in enumerate(grids_n):
+                    rgn = gen.ref_of_grid(gn)
+                    wn = world_positions(rgn)
+                    san = np.diag(rgn.vectors(np.eye(D), "world", a))
+                    items.append(np.moveaxis(wn @ A[n_].T + t[n_], -1, 0) * san.reshape((D,) + (1,) * D))
+                    Bn = san[:, None] * A[n_] / san[None, :]
+                    refs_n.append(np.array([Bn[1, 0] - Bn[0, 1]]) if D == 2 else np.array([Bn[2, 1] - Bn[1, 2], Bn[0, 2] - Bn[2, 0], Bn[1, 0] - Bn[0, 1]]))
+                fb = FlowFields(torch.tensor(np.stack(items), dtype=torch.float32), grids_n, Axes(a))
+                resb = fb.curl(mode="central")
+                gotb = interior(resb.tensor().numpy(), 2)
+                refb = np.stack(refs_n).reshape((N, -1) + (1,) * D)
+                ctx.close("flowfields_curl_with_per_item_grids", gotb, np.broadcast_to(refb, gotb.shape), tol * 2 * float(np.abs(refb).max() / scale + 1), key=f"curl/data_classes/{a}/per_item_grids", shape=list(shape))
+                ctx.bucket("curl/data_classes/per_item_grids")
             one = FlowField(torch.tensor(ua[0], dtype=torch.float32), grid, Axes(a)).curl(mode="central")
             ctx.close("flowfield_curl_equals_batch_item", one.tensor(), ff.curl(mode="central").tensor()[0], 1e-6 * (1 + float(np.abs(ua).max())), key=f"curl/data_classes/{a}", single=True)
     # ---- bspline mode: analytic derivatives of the cubic B-spline with the field as coefficients
